@@ -3,7 +3,11 @@
 import json, os, subprocess, glob
 props={json.loads(l)['id']:json.loads(l) for l in open('/verif/properties.jsonl')}
 names=[]
+import sys
+ONLY=set(sys.argv[1:])
 for pid in sorted(props):
+    if ONLY and pid not in ONLY:
+        continue
     p=props[pid]
     existing=sorted(glob.glob(f"/verif/seeded/{pid}_*/meta.json"))
     nums=[int(os.path.basename(os.path.dirname(f)).split("_")[1]) for f in existing]
